@@ -481,6 +481,19 @@ PLAIN, TEMPORAL, MULTIPLEX = PlainFlavour(), TemporalFlavour(), MultiplexFlavour
 @st.composite
 def svh_cases(draw, tier):
     big = tier != "quick"
+    if draw(st.integers(0, 11)) == 0:
+        # sparse class of large hyperedges: m disjoint hyperedges of size s, so that the
+        # binomial parameter prod K_i/N = m^-s is tiny (1e-12 .. 1e-17) and the p-value of a
+        # weight-1 hyperedge is about N*q -- a formula that cancels (1-(1-q)^N) fails here
+        s_ = draw(st.sampled_from([8, 10]))
+        m = draw(st.sampled_from([30, 40, 50]))
+        labels = list(range(s_ * m))
+        edges = [{"ns": list(range(g * s_, (g + 1) * s_)), "w": 1} for g in range(m)]
+        heavy = draw(st.integers(0, 2))
+        for g in range(heavy):
+            edges[g]["w"] = draw(st.sampled_from([2, 3]))
+        return {"kind": "range", "labels": labels, "weighted": True, "edges": edges,
+                "max_order": s_, "mp": False, "planted": False, "sparse_large": True}
     U = draw(universes(min_size=4, max_size=8, kinds=("ints", "strs", "range")))
     labels = U["labels"]
     n = len(labels)
